@@ -123,6 +123,12 @@ def build(spec):
             if c.get("dagger"):
                 op = op.H
             op | regs
+    for nm, val in (spec.get("defaults") or {}).items():
+        if nm in prog.free_params:
+            prog.free_params[nm].default = val
+    for nm, val in (spec.get("bind") or {}).items():
+        if nm in prog.free_params:
+            prog.free_params[nm].val = val
     if spec.get("target") is not None:
         prog._target = spec["target"]
     if spec.get("shots") is not None:
@@ -163,7 +169,13 @@ def pview(x):
     if isinstance(x, str):
         return ["str", x]
     if isinstance(x, sympy.Basic):
-        return ["sym", sympy.srepr(_sym_canon(x))]
+        val = None
+        try:  # the current value, when every atom is bound (or there is none)
+            c_ = complex(sfpar.par_evaluate(x))
+            val = [c_.real, c_.imag]
+        except Exception:
+            val = None
+        return ["sym", sympy.srepr(_sym_canon(x)), val]
     if isinstance(x, (int, float, complex, np.number, decimal.Decimal)):
         return _num(x)
     if type(x).__name__ == "DecimalComplex":
@@ -171,7 +183,10 @@ def pview(x):
     if isinstance(x, np.ndarray):
         if x.dtype == object:
             return ["arr", list(x.shape), [pview(y) for y in x.flatten()]]
-        return ["arr", list(x.shape), [_num(y) for y in x.flatten()]]
+        try:
+            return ["arr", list(x.shape), [_num(y) for y in x.flatten()]]
+        except (TypeError, ValueError):
+            return ["arr", list(x.shape), [pview(y.item() if hasattr(y, "item") else y) for y in x.flatten()]]
     if isinstance(x, (list, tuple)):
         return ["seq", [pview(y) for y in x]]
     return ["other", type(x).__name__, repr(x)[:80]]
@@ -276,6 +291,12 @@ def pv_equal(a, b, tol=0.0):
     ka, kb = a[0], b[0]
     if ka == "num" and kb == "num":
         return _num_close(a, b, tol)
+    if {ka, kb} == {"sym", "num"}:
+        # an expression without free / measured atoms (e.g. sf.math.sin(0.3)) is a number
+        sy, nu = (a, b) if ka == "sym" else (b, a)
+        if "Symbol(" not in sy[1] and len(sy) > 2 and sy[2] is not None:
+            return _num_close(["num", sy[2][0], sy[2][1]], nu, max(tol, 1e-12))
+        return False
     if ka == "bool" and kb == "bool":
         return a[1] == b[1]
     if ka == "bool" and kb == "num" or ka == "num" and kb == "bool":
@@ -373,6 +394,9 @@ def diff_views(v1, v2, ir, tol=0.0, compare_n=False, fields=None):
                             sig += "-other"
                 else:
                     sig = "param-kind:%s->%s" % (kx, ky)
+                    if kx.startswith("sym") and ky == "num" and len(x) > 2 and x[2] is not None:
+                        # a bound free parameter written as its current value: the value at least must be right
+                        sig += ":frozen-at-bound-value" if _num_close(["num", x[2][0], x[2][1]], y, max(tol, 1e-12)) else ":wrong-value"
                 if a["op"] in MEASURE:
                     sig = "measure-" + sig
                 out.append((pre + sig, "%s parameter %d: %r -> %r" % (where, j, x, y)))
@@ -461,8 +485,18 @@ def roundtrip(prog, ir, level):
                     with open(path, "w") as f:
                         sf.save(f, prog, ir=irname, **kw)
                 else:
-                    # a name without the extension: save appends it
-                    sf.save(path[:-4], prog, ir=irname, **kw)
+                    # by name: without the extension (save appends it), with it (kept as is), or as a pathlib.Path
+                    import pathlib
+                    variant = len(prog.circuit) % 3
+                    target = path[:-4] if variant == 0 else (path if variant == 1 else pathlib.Path(path))
+                    sf.save(target, prog, ir=irname, **kw)
+                    stray = [f_ for f_ in os.listdir(SCRATCH) if f_.startswith("rt_%d." % os.getpid()) and os.path.join(SCRATCH, f_) != path]
+                    if stray or not os.path.exists(path):
+                        for f_ in stray:
+                            os.remove(os.path.join(SCRATCH, f_))
+                        raise Stage("write", ValueError("sf.save(%r) wrote %r instead of %r" % (type(target).__name__ + ":" + os.path.basename(str(target)), sorted(stray), os.path.basename(path))))
+            except Stage:
+                raise
             except Exception as e:
                 raise Stage("serialize" if "serialize" in _frame_names(e) else "write", e)
             try:
@@ -472,7 +506,8 @@ def roundtrip(prog, ir, level):
                     with open(path) as f:
                         return sf.load(f, ir=irname), text
                 text = open(path).read()
-                return sf.load(path, ir=irname), text
+                import pathlib
+                return sf.load(pathlib.Path(path) if len(prog.circuit) % 2 else path, ir=irname), text
             except Exception as e:
                 raise Stage("load" if "to_program" in _frame_names(e) else "parse", e)
         finally:
@@ -509,6 +544,14 @@ def roundtrip(prog, ir, level):
         raise Stage("load", e)
 
 
+class _FakeRemote:
+    """what generate_code looks at on a RemoteEngine (no network here): .connection and .target"""
+    connection = object()
+    target = "X8_01"
+    backend_name = "not-the-target"
+    backend_options = {}
+
+
 def roundtrip_code(prog, level="text"):
     _, opts = parse_level(level)
     eng = None
@@ -516,6 +559,8 @@ def roundtrip_code(prog, level="text"):
         eng = sf.Engine("gaussian")
     elif opts.get("eng") == "fock":
         eng = sf.Engine("fock", backend_options={"cutoff_dim": 7})
+    elif opts.get("eng") == "remote":
+        eng = _FakeRemote()
     try:
         code = sfio.generate_code(prog, eng=eng) if eng is not None else sfio.generate_code(prog)
     except Exception as e:
@@ -530,13 +575,20 @@ def roundtrip_code(prog, level="text"):
             st.site = "generated-code"
             raise st
         run = "\n".join(lines[:-1])
+        if isinstance(eng, _FakeRemote):
+            want_line = 'eng = sf.RemoteEngine("%s")' % eng.target
+            if want_line not in lines:
+                st = Stage("write", ValueError("generated code lacks %r: %r" % (want_line, [l_ for l_ in lines if l_.startswith("eng")])))
+                st.site = "generated-code-engine"
+                raise st
+            run = "\n".join(l_ for l_ in lines[:-1] if l_ != want_line)
     try:
         exec(compile(run, "<generated>", "exec"), ns)  # noqa: S102 - code produced by the library under test
     except Exception as e:
         st = Stage("load", e)
         st.site = "generated-code"
         raise st
-    if eng is not None:
+    if eng is not None and not isinstance(eng, _FakeRemote):
         e2 = ns.get("eng")
         got = (getattr(e2, "backend_name", None), (getattr(e2, "backend_options", {}) or {}).get("cutoff_dim"))
         want = (eng.backend_name, eng.backend_options.get("cutoff_dim"))
@@ -565,7 +617,9 @@ def runnable_gaussian(v):
         if c["op"].startswith("Measure") and c["select"] is None:
             return False
         for p in c["p"]:
-            if p is not None and p[0] in ("sym", "str", "other"):
+            if p is not None and p[0] in ("str", "other"):
+                return False
+            if p is not None and p[0] == "sym" and (len(p) < 3 or p[2] is None):
                 return False
             if p is not None and p[0] == "num" and abs(complex(p[1], p[2])) > 50:
                 return False  # squeezing / displacement of this size is numerically meaningless on the gaussian backend
@@ -888,6 +942,17 @@ def gen_program(rng, wide=True, profile=None):
                 c2["dagger"] = not src.get("dagger", False)
             cmds.insert(rng.randint(0, len(cmds)), c2)
     spec["cmds"] = cmds
+    if "free" in feats and not tdm and rng.random() < 0.3:
+        names = set()
+        for c in cmds:
+            for x in c.get("p", []):
+                if isinstance(x, dict) and "e" in x:
+                    names |= {a_[1] for a_ in expr_atoms(x["e"]) if a_[0] == "free"}
+        mode = rng.choice(["bind", "default", "both"])
+        if mode in ("bind", "both"):
+            spec["bind"] = {nm: rng.choice([0.25, -0.5, 1, rng.uniform(-1, 1)]) for nm in sorted(names)}
+        if mode in ("default", "both"):
+            spec["defaults"] = {nm: rng.choice([0.75, -0.125, 2, rng.uniform(-1, 1)]) for nm in sorted(names)}
     return spec
 
 
@@ -914,9 +979,9 @@ def nontrivial(spec):
 # The property predicate on the implementation
 # ==========================================================================================
 
-CAUSE_PRIORITY = ["mixedexpr", "measexpr", "meas", "freeexpr", "free", "tdmexpr", "tdm", "list", "str", "bool", "arr1", "arr2", "arr3", "cplx"]
+CAUSE_PRIORITY = ["mixedexpr", "measexpr", "meas", "freeexpr", "free", "tdmexpr", "tdm", "constexpr", "list", "str", "bool", "arr1", "arr2", "arr3", "cplx"]
 CAUSE_NAME = {"mixedexpr": "symbolic-param", "measexpr": "symbolic-param", "meas": "symbolic-param", "freeexpr": "symbolic-param",
-              "free": "symbolic-param", "tdmexpr": "symbolic-param", "tdm": "symbolic-param", "str": "str-param", "bool": "bool-param",
+              "free": "symbolic-param", "tdmexpr": "symbolic-param", "tdm": "symbolic-param", "constexpr": "constant-expression", "str": "str-param", "bool": "bool-param",
               "list": "list-param", "arr1": "array-1d", "arr2": "array-2d", "arr3": "array-3d", "cplx": "complex-param"}
 
 
@@ -947,6 +1012,8 @@ def _pkind(p):
                 return "free" if bare else "freeexpr"
             if kinds == {"meas"}:
                 return "meas" if bare else "measexpr"
+            if not kinds:
+                return "constexpr"
             return "mixedexpr"
     return "num"
 
@@ -1007,9 +1074,311 @@ def spec_cause(spec):
     return "|".join(parts) if parts else "plain"
 
 
+# ==========================================================================================
+# Reader-only routes: scripts written by an independent printer in the style people write by hand
+# (shortcut names, keyword arguments, templates {a}, XIR gate definitions, pi constants) are loaded with sf.loads
+# and compared with the program they denote.  This reaches reader code that writer-produced text never reaches.
+# ==========================================================================================
+import inspect as _inspect
+
+SHORT = {"Vacuum": "Vac", "Fouriergate": "Fourier"}
+
+
+class NotExpressible(Exception):
+    pass
+
+
+def _h(spec, salt):
+    return int(__import__("hashlib").sha1((json.dumps(spec, sort_keys=True) + salt).encode()).hexdigest()[:8], 16)
+
+
+def _ctor_names(op):
+    ps = list(_inspect.signature(getattr(ops, op).__init__).parameters.values())[1:]
+    return [p.name for p in ps]
+
+
+def _num_text(v, ir):
+    if isinstance(v, bool):
+        raise NotExpressible("bool")
+    if isinstance(v, int):
+        return str(v)
+    if isinstance(v, float):
+        return repr(v)
+    if isinstance(v, dict) and "c" in v:
+        re_, im = v["c"]
+        return "%r%s%rj" % (float(re_), "+-"[int(im < 0)], abs(float(im)))
+    raise NotExpressible(repr(v)[:40])
+
+
+def _expr_text(e, ir, tdm, top=True):
+    """conservative syntax only: what the two grammars are documented to accept"""
+    k = e[0]
+    if ir == "xir" and not (k == "tdm" and top):
+        raise NotExpressible("from_xir has no symbolic positional parameters")
+    if k == "tdm" and not top:
+        raise NotExpressible("Blackbird TDM scripts take bare loop variables")
+    if k == "free" and (e[1].startswith("q") or re.fullmatch(r"p\d+", e[1])):
+        raise NotExpressible("template names that look like registers / loop variables")
+    if k == "num":
+        return _num_text(e[1], ir) if not (isinstance(e[1], (int, float)) and e[1] < 0) else "(%s)" % _num_text(e[1], ir)
+    if k == "free":
+        return "{%s}" % e[1] if ir == "bb" else e[1]
+    if k == "meas":
+        return "q%d" % e[1]
+    if k == "tdm":
+        return "p%d" % e[1]
+    if k == "add":
+        return "(%s + %s)" % (_expr_text(e[1], ir, tdm, False), _expr_text(e[2], ir, tdm, False))
+    if k == "mul":
+        return "%s*%s" % (_expr_text(e[1], ir, tdm, False), _expr_text(e[2], ir, tdm, False))
+    if k == "neg":
+        return "(0 - %s)" % _expr_text(e[1], ir, tdm, False)
+    if k == "pow":
+        return "(%s)**%d" % (_expr_text(e[1], ir, tdm, False), e[2])
+    return "%s(%s)" % (k, _expr_text(e[1], ir, tdm, False))
+
+
+def _list_text(v, ir):
+    if isinstance(v, list):
+        return "[" + ", ".join(_list_text(x, ir) for x in v) + "]"
+    return _num_text(v, ir)
+
+
+def _val_text(v, ir, tdm, arrays):
+    if isinstance(v, dict):
+        if "e" in v:
+            return _expr_text(v["e"], ir, tdm)
+        if "l" in v:
+            return _list_text(v["l"], ir)
+        if "s" in v:
+            if ir == "bb":
+                return '"%s"' % v["s"]
+            raise NotExpressible("string parameter in XIR")
+        if "a" in v:
+            a = _val(v)
+            if ir == "xir":
+                def enc(x):
+                    if isinstance(x, np.ndarray):
+                        return "[" + ", ".join(enc(y) for y in x) + "]"
+                    if np.iscomplexobj(a):
+                        return "%r%s%rj" % (float(x.real), "+-"[int(x.imag < 0)], abs(float(x.imag)))
+                    return repr(x.item())
+                return enc(a)
+            if a.ndim != 2:
+                raise NotExpressible("blackbird arrays are two-dimensional")
+            nm = "A%d" % len(arrays)
+            kind = "complex" if np.iscomplexobj(a) else ("int" if a.dtype.kind == "i" else "float")
+            rows = []
+            for row in a:
+                if kind == "complex":
+                    rows.append("    " + ", ".join("%r%s%rj" % (float(x.real), "+-"[int(x.imag < 0)], abs(float(x.imag))) for x in row))
+                else:
+                    rows.append("    " + ", ".join(repr(x.item()) for x in row))
+            arrays.append("%s array %s[%d, %d] =\n%s\n" % (kind, nm, a.shape[0], a.shape[1], "\n".join(rows)))
+            return nm
+    return _num_text(v, ir)
+
+
+def hand_blackbird(spec):
+    if any(c.get("dagger") or c["op"] in ("Del", "New") or c.get("kw") for c in spec["cmds"]):
+        raise NotExpressible("no Blackbird syntax")
+    if spec.get("target") is None and (spec.get("shots") is not None or spec.get("cutoff") is not None):
+        raise NotExpressible("options need a target line")
+    tdm = spec.get("tdm")
+    if tdm and (len(tdm["N"]) != 1 or tdm.get("shift", "default") != "default"):
+        raise NotExpressible("Blackbird TDM scripts carry neither N nor shift")
+    lines = ["name %s" % (spec.get("name") or "prog"), "version 1.0"]
+    if spec.get("target") is not None:
+        o = []
+        if spec.get("shots") is not None:
+            o.append("shots=%d" % spec["shots"])
+        if spec.get("cutoff") is not None:
+            o.append("cutoff_dim=%d" % spec["cutoff"])
+        lines.append("target %s%s" % (spec["target"], " (%s)" % ", ".join(o) if o else ""))
+    arrays = []
+    if tdm:
+        lines.append("type tdm (temporal_modes=%d)" % len(tdm["arrays"][0]))
+        for i, a in enumerate(tdm["arrays"]):
+            kind = "int" if all(isinstance(x, int) and not isinstance(x, bool) for x in a) else "float"
+            arrays.append("%s array p%d[1, %d] =\n    %s\n" % (kind, i, len(a), ", ".join(repr(x if kind == "int" else float(x)) for x in a)))
+    body = []
+    used = set()
+    for ci, c in enumerate(spec["cmds"]):
+        name = c["op"]
+        used |= set(c["modes"])
+        ms = str(c["modes"][0]) if len(c["modes"]) == 1 else "[" + ", ".join(map(str, c["modes"])) + "]"
+        if any(isinstance(v, dict) and "l" in v for v in c.get("p", [])):
+            raise NotExpressible("a list is not Blackbird argument syntax")
+        args = [_val_text(v, "bb", tdm, arrays) for v in c.get("p", [])]
+        kws = []
+        if c.get("select") is not None:
+            kws.append("select=" + _val_text(c["select"], "bb", tdm, arrays))
+        if c.get("dark") is not None:
+            kws.append("dark_counts=" + _val_text(c["dark"], "bb", tdm, arrays))
+        if name == "MeasureHomodyne" and not kws and c["p"] and not isinstance(c["p"][0], (dict, bool)) \
+                and c["p"][0] in (0, math.pi / 2) and _h(spec, "short%d" % ci) % 2:
+            body.append("%s | %s" % ("MeasureX" if c["p"][0] == 0 else "MeasureP", ms))
+            continue
+        if name == "MeasureHeterodyne" and not kws and _h(spec, "short%d" % ci) % 2:
+            body.append("MeasureHD | %s" % ms)
+            continue
+        if not args and not kws:
+            if name in SHORT and _h(spec, "short%d" % ci) % 2:
+                body.append("%s | %s" % (SHORT[name], ms))
+            elif name == "Fouriergate":
+                body.append("Fourier | %s" % ms)
+            else:
+                body.append("%s() | %s" % (name, ms))
+            continue
+        if name == "Fouriergate":
+            body.append("Fourier | %s" % ms)
+            continue
+        # trailing arguments by keyword, every other command
+        if args and name in GENERIC and _h(spec, "kw%d" % ci) % 2:
+            names = _ctor_names(name)
+            cut = _h(spec, "cut%d" % ci) % (len(args) + 1)
+            args = args[:cut] + ["%s=%s" % (n, a) for n, a in zip(names[cut:], args[cut:])]
+        body.append("%s(%s) | %s" % (name, ", ".join(args + kws), ms))
+    if max(used, default=-1) != spec["n"] - 1:
+        raise NotExpressible("trailing unused modes")
+    return "\n".join(lines) + "\n\n" + "\n".join(arrays) + ("\n" if arrays else "") + "\n".join(body) + "\n"
+
+
+def hand_xir(spec):
+    if any(c["op"] in ("Del", "New") or c.get("kw") for c in spec["cmds"]):
+        raise NotExpressible("meta operation")
+    tdm = spec.get("tdm")
+    if tdm and tdm.get("shift", "default") != "default":
+        raise NotExpressible("shift")
+    opts = []
+    if tdm:
+        opts += ["_type_: tdm", "N: [%s]" % ", ".join(map(str, tdm["N"]))]
+    if spec.get("name"):
+        opts.append("_name_: %s" % spec["name"])
+    if spec.get("target") is not None:
+        # the reserved key and the key to_xir writes are both accepted
+        opts.append("%s: %s" % ("_target_" if _h(spec, "tg") % 2 else "target", spec["target"]))
+    if spec.get("cutoff") is not None:
+        opts.append("cutoff_dim: %d" % spec["cutoff"])
+    if spec.get("shots") is not None:
+        opts.append("shots: %d" % spec["shots"])
+    out = []
+    if opts:
+        out.append("options:\n" + "".join("    %s;\n" % o for o in opts) + "end;\n")
+    if tdm:
+        out.append("constants:\n" + "".join("    p%d: %s;\n" % (i, _list_text(list(a), "xir")) for i, a in enumerate(tdm["arrays"])) + "end;\n")
+    used = set()
+    stmts, defs = [], []
+    cmds = spec["cmds"]
+    i = 0
+    while i < len(cmds):
+        c = cmds[i]
+        used |= set(c["modes"])
+        name = c["op"]
+        wires = "[" + ", ".join(map(str, c["modes"])) + "]"
+        if name in MEASURE:
+            items = []
+            if c.get("p"):
+                items.append("phi: " + _val_text(c["p"][0], "xir", tdm, None))
+            if c.get("select") is not None:
+                items.append("select: " + _val_text(c["select"], "xir", tdm, None))
+            if c.get("dark") is not None:
+                items.append("dark_counts: " + _val_text(c["dark"], "xir", tdm, None))
+            stmts.append("%s%s | %s;" % (name, "(%s)" % ", ".join(items) if items else "", wires))
+            i += 1
+            continue
+        args = [] if name == "Fouriergate" else [_val_text(v, "xir", tdm, None) for v in c.get("p", [])]
+        numeric = all(not isinstance(v, dict) for v in c.get("p", [])) and name != "Fouriergate"
+        # a user-defined gate wrapping one or two consecutive plain numeric commands
+        if numeric and args and _h(spec, "def%d" % i) % 3 == 0:
+            group = [c]
+            if i + 1 < len(cmds) and cmds[i + 1]["op"] in GENERIC and cmds[i + 1].get("p") and not cmds[i + 1].get("dagger") \
+                    and all(not isinstance(v, dict) for v in cmds[i + 1]["p"]):
+                group.append(cmds[i + 1])
+            gw = []
+            for g in group:
+                for m in g["modes"]:
+                    if m not in gw:
+                        gw.append(m)
+            formals, actuals, inner = [], [], []
+            for g in group:
+                fs = []
+                for v in g["p"]:
+                    fs.append("x%d" % len(formals))
+                    formals.append(fs[-1])
+                    actuals.append(_num_text(v, "xir"))
+                inner.append("    %s%s(%s) | [%s];" % ("inv " if g.get("dagger") else "", g["op"], ", ".join(fs), ", ".join("w%d" % gw.index(m) for m in g["modes"])))
+                used |= set(g["modes"])
+            HAND_INFO.setdefault("in_definition", []).extend(range(i, i + len(group)))
+            gname = "my_gate_%d" % len(defs)
+            defs.append("gate %s(%s)[%s]:\n%s\nend;\n" % (gname, ", ".join(formals), ", ".join("w%d" % k for k in range(len(gw))), "\n".join(inner)))
+            stmts.append("%s(%s) | [%s];" % (gname, ", ".join(actuals), ", ".join(map(str, gw))))
+            i += len(group)
+            continue
+        stmts.append("%s%s%s | %s;" % ("inv " if c.get("dagger") else "", name, "(%s)" % ", ".join(args) if args else "", wires))
+        i += 1
+    if not tdm and max(used, default=0) != spec["n"] - 1:
+        raise NotExpressible("trailing unused modes")
+    return "\n".join(out) + ("\n" if out else "") + "\n".join(defs) + ("\n" if defs else "") + "\n".join(stmts) + "\n"
+
+
+HAND_INFO = {}
+
+
+def roundtrip_hand(spec, ir):
+    HAND_INFO.clear()
+    if spec.get("bind") or spec.get("defaults"):
+        raise NotExpressible("a binding is not part of a script")
+    text = hand_blackbird(spec) if ir == "bb" else hand_xir(spec)
+    try:
+        return sfio.loads(text, ir="blackbird" if ir == "bb" else "xir"), text
+    except Exception as e:
+        raise Stage("load" if "to_program" in _frame_names(e) else "parse", e)
+
+
 LEVELS = [("bb", "rec"), ("bb", "text"), ("bb", "text+v1.1"), ("bb", "file"), ("bb", "fileobj"),
           ("xir", "rec"), ("xir", "text"), ("xir", "rec+decl"), ("xir", "text+decl"), ("xir", "file+decl"), ("xir", "fileobj"),
-          ("code", "text"), ("code", "text+eng-gaussian"), ("code", "text+eng-fock")]
+          ("code", "text"), ("code", "text+eng-gaussian"), ("code", "text+eng-fock"), ("code", "text+eng-remote"),
+          ("bb", "hand"), ("xir", "hand")]
+
+
+def _eval_spec_expr(e, env):
+    """value of a spec expression under the binding env (bound value, else default), computed without the library"""
+    import cmath
+    k = e[0]
+    if k == "num":
+        return e[1]
+    if k == "free":
+        return env[e[1]]
+    if k in ("meas", "tdm"):
+        raise KeyError(k)
+    if k == "add":
+        return _eval_spec_expr(e[1], env) + _eval_spec_expr(e[2], env)
+    if k == "mul":
+        return _eval_spec_expr(e[1], env) * _eval_spec_expr(e[2], env)
+    if k == "neg":
+        return -_eval_spec_expr(e[1], env)
+    if k == "pow":
+        return _eval_spec_expr(e[1], env) ** e[2]
+    return {"sin": cmath.sin, "cos": cmath.cos, "exp": cmath.exp}[k](_eval_spec_expr(e[1], env))
+
+
+def oracle_values(spec, v):
+    """Replace the library's own evaluation of symbolic parameters in a view of build(spec) by an independent one."""
+    env = dict(spec.get("defaults") or {})
+    env.update(spec.get("bind") or {})
+    cmds = [c for c in spec["cmds"]]
+    if len(cmds) != len(v["cmds"]):
+        return v
+    for c, vc in zip(cmds, v["cmds"]):
+        for x, pv in zip(c.get("p", []), vc["p"]):
+            if isinstance(x, dict) and "e" in x and pv is not None and pv[0] == "sym" and len(pv) > 2:
+                try:
+                    z = complex(_eval_spec_expr(x["e"], env))
+                    pv[2] = [z.real, z.imag]
+                except (KeyError, OverflowError, ZeroDivisionError):
+                    pv[2] = None
+    return v
 
 
 def check_roundtrip(spec, ir, level, with_state=True):
@@ -1020,16 +1389,22 @@ def check_roundtrip(spec, ir, level, with_state=True):
         prog = build(spec)
     except Exception as e:  # the spec itself is not constructible: not a property failure
         return [{"base": "unbuildable", "kind": "skip", "what": "%s: %s" % (type(e).__name__, e), "exc": True}]
-    v0 = view(prog)
+    v0 = oracle_values(spec, view(prog))
     tol = 0.0
     try:
-        if ir == "code":
+        if level == "hand":
+            try:
+                loaded, text = roundtrip_hand(spec, ir)
+            except NotExpressible:
+                return []
+            tol = 1e-12  # pi constants are evaluated by the XIR parser
+        elif ir == "code":
             loaded, text = roundtrip_code(prog, level)
             tol = 1e-5  # _factor_out_pi snaps values within np.isclose of a multiple of pi/12
         else:
             # the writer must not modify the program it serialises
             write_ir(prog, ir, parse_level(level)[1])
-            v_after = view(prog)
+            v_after = oracle_values(spec, view(prog))
             if v_after != v0:
                 d = diff_views(v0, v_after, ir, compare_n=True)
                 issues.append({"base": ir + ":writer-mutates-program", "kind": "mutate", "exc": False,
@@ -1045,8 +1420,15 @@ def check_roundtrip(spec, ir, level, with_state=True):
     if ir == "code":
         fields = ()  # generate_code(prog) without an engine does not claim to carry target / options
     base_level = parse_level(level)[0]
-    diffs = diff_views(v0, v1, ir, tol=tol, compare_n=(ir == "bb" and base_level == "rec") or ir == "code", fields=fields)
-    if base_level != "rec" and ir in ("bb", "xir") and diffs:
+    diffs = diff_views(v0, v1, ir, tol=tol, compare_n=(ir == "bb" and base_level == "rec") or ir == "code" or base_level == "hand", fields=fields)
+    if base_level == "hand":
+        indef = set(HAND_INFO.get("in_definition", ())) if ir == "xir" else set()
+
+        def suffix(w):
+            m_ = re.search(r"cmd\[(\d+)\]", w)
+            return "@gate-definition" if (m_ and int(m_.group(1)) in indef) else "@text"
+        diffs = [(s_ + suffix(w), w) for s_, w in diffs]
+    elif base_level != "rec" and ir in ("bb", "xir") and diffs:
         # differences that the object-level round trip does not show are caused by the text layer: marked @text
         try:
             l2, _ = roundtrip(build(spec), ir, "+".join(["rec"] + [o for o in level.split("+")[1:] if o == "decl"]))
@@ -1576,8 +1958,12 @@ def impl_records(spec, lits):
 
 def model_domain(spec):
     """specs the Coq model speaks about"""
+    if spec.get("bind") or spec.get("defaults"):
+        return False
     for c in spec["cmds"]:
         if c.get("kw") or c["op"] == "New":
+            return False
+        if any(_pkind(x) == "constexpr" for x in c.get("p", [])):
             return False
         for x in c.get("p", []):
             if isinstance(x, dict) and "e" in x:
@@ -1628,6 +2014,10 @@ RULE = ("a case is one generated program (1-12 modes incl. non-contiguous / desc
         "descending modes, daggered and not) pushed through every route of the serialisation API: to_blackbird (default and version=), "
         "to_xir (add_decl False / True), to_program, serialize + blackbird.loads / xir.parse_script, sf.save / sf.load by file name "
         "(extension appended) and by open file object, generate_code without engine and with a gaussian / fock(cutoff) engine; "
+        "reader-only routes: Blackbird and XIR scripts written by an independent printer in hand-written style (shortcut names Vac / "
+        "Fourier / MeasureX / MeasureP / MeasureHD, keyword arguments, {a} templates, measured-parameter expressions, 2-d array "
+        "variables, XIR user-defined gates wrapping 1-2 commands) loaded with sf.loads; free parameters also bound / with defaults "
+        "(values checked against an independent evaluation), expressions without atoms; "
         "non-trivial = contains a dagger, a select/dark_counts or a symbolic parameter")
 TRUSTED_BASE = [
     "Coq 8.16.1 kernel; vm_compute for evaluating the model on generated programs",
@@ -1665,7 +2055,7 @@ def _corpus_files():
 
 def correspondence(ctx):
     rng = ctx.rng
-    n_cases = ctx.budget(160, 1500)
+    n_cases = ctx.budget(100, 1500)
     # the fixed sweep first (every parameter kind in every slot, plain and TDM), then random programs
     specs = [sp for sp in systematic_specs() if model_domain(sp) and expr_survives(sp)]
     n_cases += len(specs)
@@ -1751,7 +2141,7 @@ def search(ctx):
         feats = spec_features(sp)
         ctx.case({"spec": sp, "failing": sorted({f[0] for f in found})[:6]}, nontrivial=nontrivial(sp),
                  bucket="sweep:" + ("+".join(sorted(feats)) if feats else "plain") + (":ok" if not found else ":fails"))
-    n_cases = ctx.budget(350, 4500)
+    n_cases = ctx.budget(200, 4000)
     for _ in range(n_cases):
         sp = gen_program(rng, wide=True)
         found = evaluate(ctx, sp, origin="search", seen=seen)
@@ -1876,6 +2266,25 @@ def systematic_specs():
     A = np.ones((2, 2)) - np.eye(2)
     out.append(prog([cmd("GraphEmbed", [arr_spec(A)], [0, 1])]))
     out.append(prog([cmd("GraphEmbed", [arr_spec(A)], [0, 1], kw={"mean_photon_per_mode": 2.0})]))
+    # every multiple of pi/12 from -14 to 26 (all gcd classes of _factor_out_pi), six per program
+    ks = list(range(-14, 27))
+    for i0 in range(0, len(ks), 6):
+        out.append(prog([cmd("Rgate", [k_ * math.pi / 12], [j % 2]) for j, k_ in enumerate(ks[i0:i0 + 6])]))
+    # falsy but meaningful values: select 0 / 0.0 / [0], dark counts [0.0], angle 0, shots / cutoff small
+    for v in (0, 0.0):
+        out.append(prog([cmd("MeasureHomodyne", [0.3], [0], select=v), cmd("MeasureHeterodyne", [], [1], select=v)]))
+        out.append(prog([cmd("Rgate", [E(["tdm", 0])], [1]), cmd("MeasureHomodyne", [E(["tdm", 1])], [0], select=v)], tdm=tdm2))
+    out.append(prog([cmd("MeasureFock", [], [0], select={"l": [0]}), cmd("MeasureThreshold", [], [1], select={"l": [0]})]))
+    out.append(prog([cmd("MeasureFock", [], [0, 1], dark={"l": [0.0, 0.0]})]))
+    out.append(prog([cmd("MeasureHomodyne", [0], [0]), cmd("MeasureHomodyne", [0.0], [1])]))
+    # bound free parameters and expressions without atoms (par_evaluate succeeds)
+    out.append(prog([cmd("Rgate", [E(["free", "a"])], [0]), cmd("Sgate", [E(["mul", ["num", 2], ["free", "a"]]), E(["free", "b1"])], [1])], bind={"a": 0.4, "b1": -0.25}))
+    out.append(prog([cmd("MeasureFock", [], [1]), cmd("MeasureHomodyne", [E(["free", "a"])], [0])], bind={"a": 0.4}))
+    out.append(prog([cmd("Dgate", [E(["sin", ["num", 0.3]]), 0.0], [0]), cmd("Rgate", [E(["mul", ["num", 2], ["cos", ["num", 0.5]]])], [1])]))
+    out.append(prog([cmd("Coherent", [0.3, 0.1], [0]), cmd("Rgate", [E(["free", "a"])], [0]), cmd("BSgate", [E(["free", "a"]), 0.2], [0, 1])], bind={"a": 0.7}))
+    out.append(prog([cmd("Coherent", [0.3, 0.1], [0]), cmd("Rgate", [E(["free", "a"])], [0]), cmd("Zgate", [E(["neg", ["free", "b1"]])], [1])], defaults={"a": 0.7, "b1": 0.5}))
+    out.append(prog([cmd("Coherent", [0.3, 0.1], [0]), cmd("Rgate", [E(["free", "a"])], [0]), cmd("Zgate", [E(["mul", ["num", 3], ["free", "b1"]])], [1])], bind={"a": -0.3, "b1": 0.25}, defaults={"a": 0.7, "b1": 0.5}))
+    out.append(prog([cmd("Coherent", [0.3, 0.1], [0]), cmd("Xgate", [E(["neg", ["sin", ["num", 0.3]]])], [0]), cmd("Zgate", [E(["cos", ["num", 2.5]])], [1]), cmd("Rgate", [E(["mul", ["num", -2], ["exp", ["num", 0.5]]])], [1])]))
     # angles a hair below / above a multiple of pi/12 (generate_code factors out pi)
     for k in (1, 5, 6, 12, -6, 24):
         for eps in (-2e-7, 2e-7, 0.0):
